@@ -134,6 +134,12 @@ pub enum InvalidSchemaError {
 
     #[error("Multiple types or intefaces with the name \"{0}\".")]
     DuplicateTypeOrInterfaceDefinition(String),
+
+    #[error("Multiple directives with the name \"{0}\".")]
+    DuplicateDirectiveDefinition(String),
+
+    #[error("Multiple scalar types with the name \"{0}\".")]
+    DuplicateScalarDefinition(String),
 }
 
 impl From<Vec<InvalidSchemaError>> for InvalidSchemaError {
